@@ -429,6 +429,11 @@ fn cmd_minimise(args: &[String]) {
     while i > 0 {
         i -= 1;
         let name = format!("fault {} {:?}", best.faults[i].kind, best.faults[i].target);
+        if reference.faults.contains(&best.faults[i]) {
+            // an edit the reference run shares is part of the source the two runs compile
+            notes.push(format!("part of the source: {name}"));
+            continue;
+        }
         attempt!(name, |p: &mut Plan| {
             p.faults.remove(i);
         });
